@@ -156,6 +156,18 @@ package pcache
 //@   loop 3: invariant all(k, visitedkey(pc.write, k) ==> has(m, k) && m[k] == ite(has(updates, k), updates[k], read.m[k]))
 //@   loop 3: invariant has(pc.write, pid) && has(updates, pid) && updates[pid] == rpinfo
 //@   at call Store#1: assert has(arg1.u, pid) && arg1.u[pid] == rpinfo
+// C07: what is published extends the snapshot that is current while the write lock is held - loaded after
+// the lock was taken, not one the caller looked at earlier (publishing from an older snapshot would take
+// back what a refresh published in between)
+//@   ghost snapM := 0
+//@   ghost snapU := 0
+//@   at call loadReadOnly: assert held(pc.writeLock)
+//@   at call loadReadOnly: after ghost snapM := result.m
+//@   at call loadReadOnly: after ghost snapU := result.u
+//@   at call Store#1: assert arg1.m == snapM
+//@   at call Store#1: assert all(k, has(snapU, k) && k != str(pid) ==> has(arg1.u, k) && arg1.u[k] == snapU[k])
+//@   loop 2: invariant read.u == snapU && read.m == snapM && all(k, visitedkey(read.u, k) ==> has(updates, k) && updates[k] == read.u[k])
+//@   at call Store#2: assert all(k, has(pc.write, k) && !has(updates, k) ==> arg1.m[k] == snapM[k])
 //@   at call Store#2: assert has(arg1.m, pid) && arg1.m[pid] == rpinfo
 //@   at call Store#2: assert all(k, has(pc.write, k) ==> has(arg1.m, k) && arg1.m[k] == ite(has(updates, k), updates[k], read.m[k]))
 
